@@ -75,7 +75,7 @@ def run_case(case):
         dims["empty_rate"] = 0.0
     stats = {"pushes": 0, "data_records": 0, "bytes_pushed": 0, "max_wrte": 0, "max_data_record": 0, "dir_pushes": 0, "cbdiff_triples": 0, "callbacks": 0, "files_in_dirs": 0}
     viol = []
-    tmp = tempfile.mkdtemp(prefix="verif-c07-", dir="/tmp")
+    tmp = tempfile.mkdtemp(prefix="verif-c07-", dir=os.environ.get("VERIF_TMP", "/tmp"))
     try:
         if case["kind"] == "file":
             sess = gen.make_session(case["impl"], dims, case["seed"])
